@@ -106,6 +106,8 @@ def run(ctx):
   n = 60 if thorough else 12
   for i in range(n):
     d = int(rng.integers(1, 6))
+    if i == 3:
+      d = 1                                    # with mode 3 below: a single constant feature
     m = int(rng.integers(max(4 * d, 5), 4 * d + 12))
     X = fits.grid(rng.standard_normal((m, d)) * 2, 4)
     mode = i % 4
@@ -113,6 +115,8 @@ def run(ctx):
       X[:, -1] = X[:, 0]                       # duplicated column: singular covariance
     elif mode == 2 and d >= 3:
       X[:, -1] = X[:, 0] + 2 * X[:, 1]         # collinear column
+    elif mode == 3 and i % 8 == 3:
+      X[:, 0] = X[0, 0]                        # a constant feature (for d = 1: the zero covariance, whose pseudo-inverse is 0)
     ctx.count('covariance_fits', 1)
     try:
       with warnings.catch_warnings():
@@ -122,10 +126,38 @@ def run(ctx):
       ctx.fail_input('covariance', 'Covariance.fit raises %s' % type(ex).__name__, dict(X=X.tolist()), observed=str(ex)[:200])
       continue
     M = e.get_mahalanobis_matrix()
+    if not np.all(np.isfinite(M)):
+      ctx.fail_input('covariance', 'M is not finite' + (' (singular case)' if (mode in (1, 2) or (mode == 3 and i % 8 == 3)) else ''),
+                     dict(X=X.tolist()), observed=str(M.tolist()))
+      continue
     terms.append("(c09_covariance %s %s)" % (gmat(X, qdy), gmat(M, qdy)))
-    recs.append(dict(kind='covariance', X=X, M=M, singular=mode in (1, 2)))
+    recs.append(dict(kind='covariance', X=X, M=M, singular=mode in (1, 2) or (mode == 3 and i % 8 == 3)))
     ctx.seen(('cov', X.tolist()), True)
     ctx.hist('covariance', 'singular' if (mode in (1, 2) and d >= 2) else 'full rank')
+  # features measured in very different units: M(X S) = S^-1 M(X) S^-1 for S = diag(2^k) (exact scalings; the covariance stays
+  # comfortably full rank in binary64: variance ratios up to 2^32)
+  for i in range(n):
+    d = int(rng.integers(2, 6))
+    m = 6 * d + 4
+    X = fits.grid(rng.standard_normal((m, d)), 6)
+    ks = rng.integers(-8, 9, size=d)
+    ks[int(rng.integers(0, d))] = 8
+    ks[(int(np.argmax(ks)) + 1) % d] = -8 if i % 2 == 0 else int(ks[(int(np.argmax(ks)) + 1) % d])
+    S = 2.0 ** ks
+    ctx.count('covariance_units', 1)
+    try:
+      with warnings.catch_warnings():
+        warnings.simplefilter('ignore')
+        M1 = Covariance().fit(X).get_mahalanobis_matrix()
+        Ms = Covariance().fit(X * S).get_mahalanobis_matrix()
+    except Exception as ex:
+      ctx.fail_input('covariance', 'Covariance.fit raises %s' % type(ex).__name__, dict(X=(X * S).tolist()), observed=str(ex)[:200])
+      continue
+    want = M1 / np.outer(S, S)
+    scale = np.sqrt(np.outer(np.diag(want), np.diag(want)))
+    if not np.all(np.isfinite(Ms)) or np.max(np.abs(Ms - want) / scale) > 1e-3:
+      ctx.fail_input('covariance', 'M is not the inverse of the sample covariance when the features are in very different units (full-rank covariance)',
+                     dict(X=(X * S).tolist(), exponents=ks.tolist()), observed=Ms.tolist(), expected=want.tolist())
   for i in range(n):
     data = fits.make_data(rng, d=int(rng.integers(2, 6)))
     X, d = data['X'], data['d']
